@@ -74,6 +74,8 @@ ROLES = [
      lambda s: re.search(r"^\(expression::deep::DeepEx<.*>, expression::deep::DeepEx<.*>\)$", s["output"]) and _inputs(s, r"^expression::deep::DeepEx<", r"^expression::deep::DeepEx<")),
     ("expression::deep::DeepEx::<'a, T, OF, LM>::var_names_like_other",
      lambda s: s["output"].startswith("expression::deep::DeepEx<") and _inputs(s, r"^expression::deep::DeepEx<", r"^&expression::deep::DeepEx<")),
+    ("expression::deep::DeepEx::<'a, T, OF, LM>::without_latest_unary",
+     lambda s: s["output"].startswith("expression::deep::DeepEx<") and _inputs(s, r"^expression::deep::DeepEx<") and s["path"].startswith("expression::deep::DeepEx")),
     ("expression::partial::make_partial_derivative_ops",
      lambda s: not s["inputs"] and s["output"].startswith("std::vec::Vec<expression::partial::PartialDerivative<")),
 ]
